@@ -415,6 +415,7 @@ size_t openDescriptors() {
 
 int main(int argc, char **argv) {
     rt::init(argc, argv);
+    rt::cpuBudgetPerCase(240);   // single-threaded, deterministic: a case that burns 240 s of CPU time does not terminate
     std::string base = fs::absolute("h_path_" + std::to_string(getpid())).string();
     fs::create_directories(base);
     for (uint64_t c = rt::st().from; c < rt::st().from + rt::st().count; ++c) {
